@@ -41,15 +41,20 @@ if confirm and os.path.isdir(src):
     if os.path.exists(notes):
         meta["needs_to_manifest"] = "see notes.md"
 patch = os.path.join(dst, "patch.diff")
-subprocess.run(["git", "-C", "/repo", "checkout", "-q", "--", "."])
-p = subprocess.run(["git", "-C", "/repo", "apply", patch], capture_output=True, text=True)
-if p.returncode != 0:
-    print("patch does not apply to /repo:", p.stderr[:300]); sys.exit(9)
+# the change is applied to a scratch worktree of /repo's HEAD (never to /repo itself); the checks are pointed at it with
+# VERIF_REPO and write their evidence / replays under VERIF_OUT, so /verif/evidence keeps describing the unchanged tree
+# and several changes can be evaluated at the same time
+scratch = "/tmp/evalrepo-%s-%d" % (dstname, os.getpid())
+subprocess.run(["git", "-C", "/repo", "worktree", "add", "-q", "--detach", scratch, "HEAD"], check=True)
 res = meta.setdefault("checks", {})
 try:
+    p = subprocess.run(["git", "-C", scratch, "apply", patch], capture_output=True, text=True)
+    if p.returncode != 0:
+        print("patch does not apply to /repo's HEAD:", p.stderr[:300]); sys.exit(9)
+    env = dict(os.environ, VERIF_REPO=scratch, VERIF_OUT=scratch + "-out")
     for c in checks:
         t = time.time()
-        q = subprocess.run([os.path.join(ROOT, "check"), c, "--tier", tier], capture_output=True, text=True, cwd=ROOT)
+        q = subprocess.run([os.path.join(ROOT, "check"), c, "--tier", tier], capture_output=True, text=True, cwd=ROOT, env=env)
         lines = [l for l in q.stdout.splitlines() if l.startswith(("VIOLATION", "  sig=", "KNOWN"))]
         res["%s/%s" % (c, tier)] = dict(rc=q.returncode, seconds=round(time.time() - t), sigs=[l.strip()[:200] for l in lines if "sig=" in l][:6])
         print("check %s --tier %s on seed %s -> rc=%d" % (c, tier, dstname, q.returncode))
@@ -58,7 +63,7 @@ try:
         if q.returncode == 2:
             print(q.stderr[-800:])
 finally:
-    subprocess.run(["git", "-C", "/repo", "checkout", "-q", "--", "."])
-    subprocess.run(["git", "-C", "/repo", "clean", "-fdq"])
+    subprocess.run(["git", "-C", "/repo", "worktree", "remove", "--force", scratch])
+    shutil.rmtree(scratch + "-out", ignore_errors=True)
 meta["caught_by"] = sorted(c for c, r in res.items() if r["rc"] == 1)
 json.dump(meta, open(meta_path, "w"), indent=1)
